@@ -484,28 +484,31 @@ func c16Specs(env *c16Env) []rpcSpec {
 					get(m).ExpirationPolicy = &pubsubpb.ExpirationPolicy{Ttl: v}
 				})[1:]...)},
 			{"retention", durAlts(func(m proto.Message, v *durationpb.Duration) { get(m).MessageRetentionDuration = v })},
-			{"retry", []alt{
-				{"absent", func(m proto.Message) {}},
-				{"empty", func(m proto.Message) { get(m).RetryPolicy = &pubsubpb.RetryPolicy{} }},
-				{"min-only", func(m proto.Message) {
-					get(m).RetryPolicy = &pubsubpb.RetryPolicy{MinimumBackoff: durationpb.New(time.Second)}
-				}},
-				{"max-only", func(m proto.Message) {
-					get(m).RetryPolicy = &pubsubpb.RetryPolicy{MaximumBackoff: durationpb.New(30 * time.Second)}
-				}},
-				{"both", func(m proto.Message) {
-					get(m).RetryPolicy = &pubsubpb.RetryPolicy{MinimumBackoff: durationpb.New(time.Second), MaximumBackoff: durationpb.New(30 * time.Second)}
-				}},
-				{"zero-min", func(m proto.Message) {
-					get(m).RetryPolicy = &pubsubpb.RetryPolicy{MinimumBackoff: &durationpb.Duration{}, MaximumBackoff: durationpb.New(time.Second)}
-				}},
-				{"negative", func(m proto.Message) {
-					get(m).RetryPolicy = &pubsubpb.RetryPolicy{MinimumBackoff: durationpb.New(-time.Second), MaximumBackoff: durationpb.New(-time.Hour)}
-				}},
-				{"huge", func(m proto.Message) {
-					get(m).RetryPolicy = &pubsubpb.RetryPolicy{MinimumBackoff: &durationpb.Duration{Seconds: 315576000000}, MaximumBackoff: durationpb.New(1)}
-				}},
-			}},
+			// retry policy: the product of the two duration domains (two fields)
+			{"retry.min", append([]alt{{"policy-absent", func(m proto.Message) {}}, {"policy-empty", func(m proto.Message) { get(m).RetryPolicy = &pubsubpb.RetryPolicy{} }}},
+				append(durAlts(func(m proto.Message, v *durationpb.Duration) {
+					if get(m).RetryPolicy == nil {
+						get(m).RetryPolicy = &pubsubpb.RetryPolicy{}
+					}
+					get(m).RetryPolicy.MinimumBackoff = v
+				})[1:], alt{"1s", func(m proto.Message) {
+					if get(m).RetryPolicy == nil {
+						get(m).RetryPolicy = &pubsubpb.RetryPolicy{}
+					}
+					get(m).RetryPolicy.MinimumBackoff = durationpb.New(time.Second)
+				}})...)},
+			{"retry.max", append([]alt{{"absent", func(m proto.Message) {}}},
+				append(durAlts(func(m proto.Message, v *durationpb.Duration) {
+					if get(m).RetryPolicy == nil {
+						get(m).RetryPolicy = &pubsubpb.RetryPolicy{}
+					}
+					get(m).RetryPolicy.MaximumBackoff = v
+				})[1:], alt{"30s", func(m proto.Message) {
+					if get(m).RetryPolicy == nil {
+						get(m).RetryPolicy = &pubsubpb.RetryPolicy{}
+					}
+					get(m).RetryPolicy.MaximumBackoff = durationpb.New(30 * time.Second)
+				}})...)},
 			{"deadletter", []alt{
 				{"absent", func(m proto.Message) {}},
 				{"empty", func(m proto.Message) { get(m).DeadLetterPolicy = &pubsubpb.DeadLetterPolicy{} }},
